@@ -1,5 +1,6 @@
 from __future__ import annotations
 
+from copy import deepcopy
 from itertools import combinations
 import time, sched, asyncio
 from typing import Sequence
@@ -104,7 +105,7 @@ class WMIExperiment(Experiment):
                             'n_qubits': len(qubits),
                             'memory_slots': len(clbits)
                             },
-                        'instructions': self.instructions
+                        'instructions': deepcopy(self.instructions)
                     }
                 ],
             'header': {
@@ -243,4 +244,4 @@ class WMIExperimentResults(ExperimentResults):
             n_qubits = len(self._experiment_ref.circuit.particles())
             return {str(bin(int(key, 16))).split('b')[1].zfill(n_qubits): 
                 value for key, value in self._counts.items()}
-        return self._counts
+        return dict(self._counts)
